@@ -2,7 +2,7 @@
 import os
 from lib import fw
 
-MODULES = ["SunriseVerif.Props.C12", "SunriseVerif.Props.C12Full", "SunriseVerif.Props.C12MV"]
+MODULES = ["SunriseVerif.Props.C12", "SunriseVerif.Props.C12Full", "SunriseVerif.Props.C12MV", "SunriseVerif.Props.C12MVRefine"]
 CORPUS = os.path.join(fw.VERIF, "corpus", "C12")
 
 
